@@ -26,11 +26,32 @@ def load_variants():
     return out
 
 
+def load_seeded():
+    """The independently seeded changes kept under /verif/seeded: each must (still) be reported by the property's own check
+    when meta.json says it is caught; the documented misses are listed, not failed."""
+    out = []
+    root = os.path.join(VERIF, "seeded")
+    if not os.path.isdir(root):
+        return out
+    for d in sorted(os.listdir(root)):
+        mp = os.path.join(root, d, "meta.json")
+        if not os.path.exists(mp):
+            continue
+        meta = json.load(open(mp))
+        out.append({"id": "seeded-" + d, "property": meta["property"], "patch": os.path.join(root, d, "patch.diff"),
+                    "kind": "break" if meta.get("own_check_catches") else "documented-miss", "edits": []})
+    return out
+
+
 def run_one(v, repo):
     tmp = tempfile.mkdtemp(prefix="vsel_", dir=os.environ.get("VERIF_SCRATCH", "/tmp"))
     try:
         shutil.copytree(os.path.join(repo, "src", "fparser"), os.path.join(tmp, "src", "fparser"),
                         ignore=shutil.ignore_patterns("tests", "__pycache__"))
+        if v.get("patch"):
+            r = subprocess.run(["patch", "-p1", "-s", "-d", tmp, "-i", v["patch"]], capture_output=True, text=True)
+            if r.returncode != 0:
+                return v, "SKIP", "seeded patch no longer applies"
         for ed in v["edits"]:
             path = os.path.join(tmp, "src", "fparser", ed["file"])
             if not os.path.exists(path):
@@ -49,6 +70,8 @@ def run_one(v, repo):
         r = subprocess.run([os.path.join(VERIF, "check"), v["property"], "--repo", tmp],
                            capture_output=True, text=True, env=env)
         outp = r.stdout + r.stderr
+        if v.get("kind") == "documented-miss":
+            return v, "OK", ("documented miss (still not caught)" if r.returncode == 0 else "documented miss is NOW reported (exit %d)" % r.returncode)
         if v.get("kind", "break") == "twin":
             if r.returncode == 0:
                 return v, "OK", "silent on behaviour-preserving twin"
@@ -72,7 +95,7 @@ def main():
     ap.add_argument("--jobs", type=int, default=16)
     ap.add_argument("--repo", default="/repo")
     args = ap.parse_args()
-    vs = load_variants()
+    vs = load_variants() + load_seeded()
     if args.only:
         vs = [v for v in vs if v["property"] == args.only]
     if args.id:
@@ -81,7 +104,7 @@ def main():
     with cf.ThreadPoolExecutor(max_workers=args.jobs) as ex:
         for v, status, msg in ex.map(lambda v: run_one(v, args.repo), vs):
             res.append((v, status, msg))
-            print("%-5s %-4s %-40s %s" % (status, v["property"], v["id"], msg if status != "OK" else ""))
+            print("%-5s %-4s %-40s %s" % (status, v["property"], v["id"], msg if status != "OK" or "documented" in msg else ""))
     n_ok = sum(1 for r in res if r[1] == "OK")
     n_skip = sum(1 for r in res if r[1] == "SKIP")
     n_fail = sum(1 for r in res if r[1] == "FAIL")
